@@ -8,6 +8,8 @@ import Rl.Wire
 import Rl.Drv.History
 import Rl.Drv.Keys
 import Rl.Drv.Editor
+import Rl.Drv.Ed
+import Rl.Drv.Direct
 open Rl Rl.Wire
 
 def dispatch (tbl : CharTable) (target : String) (f : List String) (impl : String) : String × String :=
@@ -15,8 +17,11 @@ def dispatch (tbl : CharTable) (target : String) (f : List String) (impl : Strin
     match target with
     | "hist" => Rl.Drv.History.handle tbl f impl
     | "keys" => Rl.Drv.Keys.handle tbl f impl
-    | "ed" => Rl.Drv.Editor.handle tbl f impl
-    | _ => some ("unknown-target", "-")
+    | "direct" => Rl.Drv.Direct.handle tbl f impl
+    | "seg" => Rl.Drv.Direct.handleSeg tbl f impl
+    | _ =>
+      if target.startsWith "ed" then Rl.Drv.Ed.handle tbl target f impl
+      else some ("unknown-target", "-")
   r.getD ("bad-request", "bad-request")
 
 partial def loop (h : IO.FS.Stream) (out : IO.FS.Stream) (tbl : CharTable) : IO Unit := do
